@@ -8,7 +8,8 @@ THEOREMS = ["inv_init", "inv_step", "inv_tx", "inv_reachable", "absent_no_trace"
             "delete_no_trace_owner", "cascade_no_trace", "boss_cascade_no_trace", "tx_removed_no_trace", "delete_terminates", "restrict_refuses", "no_fk_names_absent", "delete_forgets", "recreate_fresh", "recreate_accepted_iff", "recreate_absent_accepted_iff",
             "recreate_as_if_never_existed", "child_create_over_parent_reindexes", "child_create_over_parent_no_trace",
             "child_create_empty_name_rejected", "rc_and_child_links_no_trace", "cascade_witness", "cycle_witness", "extended_child_witness", "self_link_witness", "naming_variant_witness", "chief_witness",
-            "alias_index_key_is_stored_bytes", "code_index_key_is_stored_bytes", "typed_variant_witness"]
+            "alias_index_key_is_stored_bytes", "code_index_key_is_stored_bytes", "typed_variant_witness",
+            "delete_no_trace_partial", "grandchild_delete_leaves_trace", "recreate_fresh_partial", "grandchild_recreate_meets_stale_entry"]
 
 A_IDS = {"61", "62", "63", "64", "65"}
 
@@ -24,6 +25,12 @@ def stats_of(case, impl):
         st[k] = st.get(k, 0) + v
 
     txs = _txs(case)
+    if case.startswith("g "):
+        inc("g_histories")
+        inc("g_cfg_reg_" + (case.split(" ")[1].split("/")[4].replace(".", "none")))
+        for tx in txs:
+            for op in tx:
+                inc("g_op_" + op[:2])
     inc("histories")
     inc("transactions", len(txs))
     inc("multi_op_transactions", sum(1 for t in txs if len(t) > 1))
@@ -78,7 +85,47 @@ def nontrivial(case, impl, st):
     return st.get("deletes_validated", 0) >= 1 and st.get("res_ok", 0) >= 4
 
 
-MATCHERS = {}
+def _g_leftovers_ok(case, info):
+    """three-level chain, G not registered with the root: after a committed delete the only lines that still mention the
+    id are entries of indexes / link sets / back-reference sets DECLARED BY G (level 2); implementation = model"""
+    f = case.split(" ")
+    if len(f) != 3 or f[0] != "g":
+        return False
+    cfg = f[1].split("/")
+    if len(cfg) != 5 or "r" in cfg[4]:
+        return False          # G reachable from the root: nothing may stay
+    if lib.compare(info["impl"], info["model"], False, extra_cmp) is not None:
+        return False
+    recs = lib.parse_records(info["impl"])
+    if not recs:
+        return False
+    allowed = ("K:75/696e6465786573/6e6f646573/7532/", "K:75/696e6465786573/6e6f646573/7332/")
+    seen = False
+    for r in recs:
+        d = r["extra"][0] if r["extra"] else "."
+        if d == ".":
+            continue
+        for item in d.split(","):
+            idw, verdict = item.split("=")
+            if verdict == "ok/clean":
+                continue
+            hits = 0
+            for l in r["dump"]:
+                body, _, val = l[2:].partition("=")
+                elems = body.split("/")
+                if not (idw in elems or "05" + idw in elems or val in (idw, "05" + idw)):
+                    continue
+                ok = l.startswith(allowed) or (l.startswith("K:75/6f776e657273/") and len(elems) == 5 and elems[3] in ("6d32", "7232"))
+                if not ok:
+                    return False      # a trace outside G's own declarations: a violation
+                hits += 1
+            if hits == 0:
+                return False
+            seen = True
+    return seen
+
+
+MATCHERS = {"grandchild-delete-fanout": _g_leftovers_ok}
 
 
 def extra_cmp(a, b, spec_mode):
@@ -109,7 +156,12 @@ RULE = ("random histories (seeded) of 6-25 (quick) / 6-41 (thorough) transaction
         "half of the time of an entity somebody reports to; after every committed transaction boltz.ValidateDeleted and an "
         "independent byte scan of the dump run for every entity id that existed before it and not after it (cascade "
         "victims included); ids are re-created constantly (small universe); non-trivial = at least one validated committed "
-        "delete after >= 3 other committed transactions; distinct = distinct case line")
+        "delete after >= 3 other committed transactions; distinct = distinct case line; PLUS 500 (quick) / 5000 (thorough) histories "
+        "(case prefix g) over THREE-LEVEL chains of stores A -> C -> G (plain child stores; every level declaring a random subset of "
+        "nullable unique index / set index / link collection / nullable fk index; G registered with C, with the root, with both or "
+        "not at all): 4-12 single-operation transactions (creates, updates and patches with random field checkers, deletes through "
+        "each of the three stores, re-creations), ending in a delete; compared: result, every key/value line and the entity / data "
+        "bucket lines of the dump, ValidateDeleted + byte scan of the FULL dump for every deleted id")
 
 ASSUMPTIONS = [
     "bbolt: buckets are finite maps, a transaction applies all of its writes or none (modelled)",
